@@ -431,3 +431,16 @@ func OnceDo(o *sync.Once, f func()) {
 }
 
 func runtimeGosched() { runtime.Gosched() }
+
+// SyncHook, if set, is called before every atomic operation of repository
+// code (C16 builds): code that is free of data races can still interfere
+// through atomics, but only if a task switch falls between two of them.
+var SyncHook func()
+
+// Pre is wrapped around the callee of sync/atomic calls: simhook.Pre(x.Load)().
+func Pre[F any](f F) F {
+	if h := SyncHook; h != nil {
+		h()
+	}
+	return f
+}
